@@ -177,14 +177,18 @@ def varmodelN (req : Json) : R Reply := do
     let model := Json.mkObj [("order", listJ nlocJ m.locations), ("supports", listJ regionJ m.supports),
       ("reverseMapping", listJ natJ m.reverseMapping), ("deltas", listJ ratJ (m.getDeltas values)),
       ("interp", listJ ratJ (ats.map (fun x => m.interpolateFromMasters x values))),
-      ("atMasters", listJ ratJ (locs.map (fun x => m.interpolateFromMasters x values)))]
+      ("atMasters", listJ ratJ (locs.map (fun x => m.interpolateFromMasters x values))),
+      ("roundedDeltas", listJ ratJ (m.getDeltasRound otRound values)),
+      ("roundedAtMasters", listJ ratJ (locs.map (fun x => m.interpolateRounded otRound x values)))]
     match obs.getObjVal? "err" with
     | .ok _ => return { model, holds := true, hyp }
     | .error _ =>
       let oAt ← asList asRat (← field obs "atMasters")
       let tol ← asRat (← field i "tol")
       -- the law, on the implementation's output: interpolating at master i gives master i's value (exactly when tol = 0)
-      return { model, holds := holdsReproduce values oAt tol, hyp }
+      let oRAt ← asList asRat (← field obs "roundedAtMasters")
+      -- ... and with `getDeltas(values, round=otRound)`: within 1/2 of master i's value
+      return { model, holds := holdsReproduce values oAt tol && holdsReproduce values oRAt (1/2 + tol), hyp }
 
 def asAnchors (j : Json) : R (List (String × List (String × Q × Q))) :=
   asList (asPair asStr (asList (fun a => do
